@@ -47,6 +47,21 @@ Theorem C14_ranged_truncation : forall l buf, ~ In 0 (ranged_text l) -> buf <> [
 Proof. exact ranged_truncation. Qed.
 Print Assumptions C14_ranged_truncation.
 
+(* the report is exact: success is reported precisely when the text, with its terminator, fits *)
+Theorem C14_ranged_reports_fit_exactly : forall l buf b r, ~ In 0 (ranged_text l) -> buf <> [] -> ranged_string l buf = Ok (b, r) ->
+  (r = None <-> (length buf <= length (ranged_text l))%nat) /\
+  (forall k, r = Some k -> k = length (ranged_text l) /\ (k < length buf)%nat).
+Proof.
+  intros l buf b r Hn Hne E. destruct (Nat.lt_ge_cases (length (ranged_text l)) (length buf)) as [Hf|Hc].
+  - destruct (ranged_fit l buf Hn Hf) as (b' & E' & _). rewrite E in E'. inversion E'; subst. split.
+    + split; [discriminate|lia].
+    + intros k Hk. inversion Hk; subst. split; [reflexivity|exact Hf].
+  - destruct (ranged_truncation l buf Hn Hne Hc) as (b' & E' & _). rewrite E in E'. inversion E'; subst. split.
+    + split; [intros _; exact Hc|reflexivity].
+    + intros k Hk. discriminate Hk.
+Qed.
+Print Assumptions C14_ranged_reports_fit_exactly.
+
 Theorem C14_ranged_text_groups : forall l, Forall named l -> ranged_text l = join 44 (gtexts (S (length l)) l).
 Proof. exact ranged_text_groups. Qed.
 Print Assumptions C14_ranged_text_groups.
